@@ -1275,7 +1275,12 @@ def add_invariant_checks(cls: ClassT) -> None:
         # We have to distinguish this special case which is used by named
         # tuples and possibly other optimized data structures.
         # In those cases, we have to wrap __new__ instead of __init__.
-        if init_func == object.__init__ and hasattr(cls, "__new__"):
+        #
+        # If the class does not define its own __new__ either, we wrap ``object.__init__`` and leave ``object.__new__``
+        # alone. A wrapper around ``object.__new__`` would be inherited by the derived classes, so that
+        # they could not define a constructor with arguments any more, and their invariants would be checked
+        # before their constructors have run.
+        if init_func == object.__init__ and getattr(cls, "__new__") is not object.__new__:
             new_func = getattr(cls, "__new__")
             setattr(cls, "__new__", _decorate_new_with_invariants(new_func))
         else:
